@@ -3,8 +3,8 @@
 From Coq Require Import Reals Lra List ZArith Bool.
 From Inferno Require Import Base.Num Base.NumR Gen.Interpolation Gen.Extrapolation C20.InterpProofs.
 Open Scope R_scope.
-Theorem roundtrip_expratedecay : forall (s t p n dt : R) (rc : T RN),
-  roundtrip (fun a b c d : R => interp_expratedecay RN a b c d rc)
-    (fun a b c d e : R => extrap_expratedecay RN a b c d e rc) s t p n dt.
+Theorem roundtrip_expratedecay : forall s t p n dt rc : T RN,
+  interp_expratedecay RN (fst (extrap_expratedecay RN s t p n dt rc))
+    (snd (extrap_expratedecay RN s t p n dt rc)) t dt rc = s.
 Proof. exact (@Inferno.C20.InterpProofs.roundtrip_expratedecay). Qed.
 Print Assumptions roundtrip_expratedecay.
